@@ -74,7 +74,13 @@ def _machine(case, ubm, s):
         m = JFAMachine(r_U=rU, r_V=rV, ubm=ubm, em_iterations=1, enroll_iterations=2)
         m.V = _pattern((C * D, rV), sub + 1, s)
     m.U = _pattern((C * D, rU), sub, s)
-    m.D = (np.abs(_pattern((C * D,), sub + 2, s)) + 0.5 * s) if sub % 4 != 3 else np.full(C * D, 1e-10 * s)
+    if sub % 4 == 3:
+        m.D = np.full(C * D, 1e-10 * s)
+    elif sub % 4 == 2:
+        dd = _pattern((C * D,), sub + 2, s)
+        m.D = np.where(dd == 0, 0.75 * s, dd)  # signed entries (the pattern contains -1): D is a diagonal matrix, not a scale
+    else:
+        m.D = np.abs(_pattern((C * D,), sub + 2, s)) + 0.5 * s
     return m
 
 
